@@ -23,7 +23,7 @@ func init() {
 			"A step whose weights equal the tape run with BroadcastRule=Avg instead (and the model has batch > 1 or a Softmax wider than 1) is attributed to the recorded finding; models with batch 1 and no wide Softmax have no expansion and are decided exactly. " +
 			"Non-trivial: >= 2 steps completed; distinct = (D, O, batch, activation, loss, lr, variant, steps).",
 		Assumptions: []string{"weight comparison: |r-e| <= 1e-10*(1+max|e|) + 1e-9*max(|r|,|e|); loss within the C12 tolerance"},
-		FloorQuick:  800, FloorThor: 10000,
+		FloorQuick:  4000, FloorThor: 100000,
 		Run: runC11,
 	})
 }
@@ -43,7 +43,7 @@ type c11model struct {
 }
 
 func runC11(c *fw.Ctx) {
-	for i := 0; i < c.Pick(1500, 30000); i++ {
+	for i := 0; i < c.Pick(8000, 300000); i++ {
 		c.Case(func(k *fw.K) { c11History(k, c.Quick()) })
 	}
 }
